@@ -18,6 +18,13 @@ Go ↔ model
 * `internal/controllers/objectsets/objectset_controller.go` (`Reconcile`, `handleDeletionAndArchival`) with the
   per-phase worker abstracted to "record the call": `controller` (after fix C14-a: the slice loader also runs
   before teardown) and `controllerPreFix` (the control flow before that fix, kept as the record of the finding).
+* `internal/controllers/objectsets/objectsetphases_reconciler.go` (`reconcile`, `reconcilePhase`, `Teardown`,
+  `teardownPhase`, `isObjectSetInTransition`) ↦ `reconcileCalls` / `teardownCalls`: a phase WITHOUT class goes to
+  the in-process per-phase worker, a phase WITH a class (`phase.Class != ""`, "delegated" / "remote" phase) goes to
+  the remote phase reconciler:
+* `internal/controllers/objectsets/remotephase_reconciler.go` (`Reconcile`, `desiredObjectSetPhase`, `Teardown`):
+  the ObjectSetPhase object is created from the (loaded) phase — `SetPhase` copies `phase.Objects` — resp. deleted;
+  what the controller finds of that object is the scenario input `RState`.
 
 Not modelled: API errors other than AlreadyExists on slice creation / NotFound on slice load, update conflicts
 on the ObjectDeployment (retried by the code), owner references other than "is the ObjectDeployment the
@@ -114,10 +121,14 @@ def setOwned : Store Name → Name → Store Name
   | [], _ => []
   | (m, s) :: st, n => if m = n then (m, { s with owned := true }) :: st else (m, s) :: setOwned st n
 
-/-- A phase of an ObjectSet(Template): inline objects and references to slices. -/
+/-- A phase of an ObjectSet(Template): inline objects, references to slices, and whether the phase carries a
+class (`phase.Class != ""`: it is not reconciled in-process but delegated to an ObjectSetPhase controller).
+Neither the encoder (`chunkPhase` edits `Objects`/`Slices` of the phase in place) nor the slice loader looks at
+the class. -/
 structure Phase (Name : Type) where
   objects : List Obj
   slices : List Name
+  cls : Bool := false
   deriving DecidableEq, Repr
 
 abbrev Template (Name : Type) := List (Phase Name)
@@ -272,11 +283,24 @@ inductive Mode where
   | active | archived | deleted
   deriving DecidableEq, Repr, Inhabited
 
-/-- A call of the per-phase worker: `ReconcilePhase` / `TeardownPhase` with the phase index and its objects. -/
+/-- What the ObjectSet controller finds of the ObjectSetPhase object belonging to a delegated phase. -/
+inductive RState where
+  | absent        -- no ObjectSetPhase object (yet / any more)
+  | noStatus      -- exists, controlled by the ObjectSet, no Available condition for its generation
+  | available     -- exists, controlled by the ObjectSet, Available=True
+  | unavailable   -- exists, controlled by the ObjectSet, Available=False
+  | orphaned      -- exists with Available=True, but is not controlled by this ObjectSet
+  deriving DecidableEq, Repr, Inhabited
+
+/-- A call that hands a phase to whoever rolls it out / tears it down.
+`remote = false`: `ReconcilePhase` / `TeardownPhase` of the in-process per-phase worker with the phase index and
+its objects.  `remote = true`: the ObjectSetPhase object of a delegated phase is created with these objects in
+`.spec.objects` (`desiredObjectSetPhase` → `SetPhase`) / is deleted (`teardown`, no objects involved). -/
 structure Call where
   teardown : Bool
   phase : Nat
   objects : List Obj
+  remote : Bool := false
   deriving DecidableEq, Repr
 
 inductive CRes where
@@ -289,25 +313,62 @@ structure CtlOut (Name : Type) where
   updates : List Name
   archived : Option Bool      -- status of the Archived condition afterwards, if present
   finalizerRemoved : Bool
+  available : Option Bool := none   -- status of the Available condition afterwards, if present
+  inTransition : Bool := false      -- InTransition condition present afterwards
 
 /-- `preflight.ObjectDuplicate` over all phases. -/
 def hasDup : List Nat → Bool
   | [] => false
   | x :: xs => xs.contains x || hasDup xs
 
-/-- `objectSetPhasesReconciler.Teardown`: phases in reverse order, stop at the first one that is not done. -/
-def teardownCalls (wait : Option Nat) : List (Nat × List Obj) → List Call × Bool
+def indexed {α : Type} (l : List α) : List (Nat × α) := (List.range l.length).zip l
+
+/-- A loaded phase as the phases reconciler sees it: index, `none` for a phase without class resp. the state of
+its ObjectSetPhase object for a delegated phase, and the phase's objects. -/
+abbrev PInfo := Nat × Option RState × List Obj
+
+/-- Phase `i` is delegated iff its class is set; `rem[i]` then says what exists of its ObjectSetPhase. -/
+def phaseInfosFrom (cls : List Bool) (rem : List RState) : Nat → List (List Obj) → List PInfo
+  | _, [] => []
+  | i, objs :: rest =>
+    (i, if cls.getD i false then some (rem.getD i .absent) else none, objs) :: phaseInfosFrom cls rem (i + 1) rest
+
+def phaseInfos (cls : List Bool) (rem : List RState) (phases : List (List Obj)) : List PInfo :=
+  phaseInfosFrom cls rem 0 phases
+
+/-- `objectSetPhasesReconciler.reconcile` → `reconcilePhase`: phases in order, "break on first failing probe".
+Result: calls, error?, all phases available.  The in-process worker always succeeds here (recorder).
+`objectSetRemotePhaseReconciler.Reconcile`: NotFound → `Create(desiredObjectSetPhase)`, after which the code still
+returns the NotFound error of the Get ("getting existing ObjectSetPhase"); an existing ObjectSetPhase is never
+updated; without an Available=True condition it is reported as a failed probe. -/
+def reconcileCalls : List PInfo → List Call × Bool × Bool
+  | [] => ([], false, true)
+  | (i, none, objs) :: rest =>
+    let (cs, err, av) := reconcileCalls rest
+    ({ teardown := false, phase := i, objects := objs } :: cs, err, av)
+  | (i, some rs, objs) :: rest =>
+    match rs with
+    | .absent => ([{ teardown := false, phase := i, objects := objs, remote := true }], true, false)
+    | .noStatus | .unavailable => ([], false, false)
+    | .available | .orphaned => reconcileCalls rest
+
+/-- `objectSetPhasesReconciler.Teardown` → `teardownPhase`: phases in reverse order (the caller reverses), stop at
+the first one that is not done.  `objectSetRemotePhaseReconciler.Teardown`: gone or orphaned → done; otherwise
+Delete the ObjectSetPhase and "wait until we retry and really get a 404". -/
+def teardownCalls (wait : Option Nat) : List PInfo → List Call × Bool
   | [] => ([], true)
-  | (i, objs) :: rest =>
+  | (i, none, objs) :: rest =>
     if wait = some i then ([{ teardown := true, phase := i, objects := objs }], false)
     else
       let (cs, done) := teardownCalls wait rest
       ({ teardown := true, phase := i, objects := objs } :: cs, done)
+  | (i, some rs, _) :: rest =>
+    match rs with
+    | .absent | .orphaned => teardownCalls wait rest
+    | _ => ([{ teardown := true, phase := i, objects := [], remote := true }], false)
 
-def indexed {α : Type} (l : List α) : List (Nat × α) := (List.range l.length).zip l
-
-def finishTeardown (mode : Mode) (upd : List Name) (wait : Option Nat) (phases : List (List Obj)) : CtlOut Name :=
-  let (calls, done) := teardownCalls wait (indexed phases).reverse
+def finishTeardown (mode : Mode) (upd : List Name) (wait : Option Nat) (infos : List PInfo) : CtlOut Name :=
+  let (calls, done) := teardownCalls wait infos.reverse
   if done then
     { res := .ok, calls, updates := upd, archived := if mode = .archived then some true else none,
       finalizerRemoved := true }
@@ -315,29 +376,50 @@ def finishTeardown (mode : Mode) (upd : List Name) (wait : Option Nat) (phases :
     { res := .ok, calls, updates := upd, archived := if mode = .archived then some false else none,
       finalizerRemoved := false }
 
+/-- `objectSetPhasesReconciler.Reconcile` on the loaded phases (everything after the slice loader). -/
+def finishActive (upd : List Name) (infos : List PInfo) : CtlOut Name :=
+  let all := infos.flatMap (·.2.2)
+  if hasDup (all.map (·.id)) then
+    -- preflight.Error → UpdateObjectSetOrPhaseStatusFromError: Available=False/PreflightError
+    { res := .preflight, calls := [], updates := upd, archived := none, finalizerRemoved := false,
+      available := some false }
+  else
+    let (calls, err, av) := reconcileCalls infos
+    if err then
+      -- the error is returned as it is, no status update
+      { res := .err, calls, updates := upd, archived := none, finalizerRemoved := false }
+    else
+      -- `isObjectSetInTransition`: nobody reports to control anything here, so every object of every phase
+      -- "may be under management" and is not yet
+      { res := .ok, calls, updates := upd, archived := none, finalizerRemoved := false,
+        available := some av, inTransition := !all.isEmpty }
+
+/-- Everything after the slice loader, for the loaded phases `phases` of a template whose phases have the
+classes `cls`. -/
+def finish (mode : Mode) (upd : List Name) (cls : List Bool) (rem : List RState) (wait : Option Nat)
+    (phases : List (List Obj)) : CtlOut Name :=
+  match mode with
+  | .active => finishActive upd (phaseInfos cls rem phases)
+  | _ => finishTeardown mode upd wait (phaseInfos cls rem phases)
+
 /-- `GenericObjectSetController.Reconcile` for an ObjectSet that carries the cache finalizer and has a
-revision, with the per-phase worker succeeding (reconcile: no probe failure; teardown: done unless `wait`).
+revision, with the in-process per-phase worker succeeding (reconcile: no probe failure; teardown: done unless
+`wait`) and the ObjectSetPhase objects of delegated phases in the states `rem` (by phase index).
 Models the code AFTER fix C14-a: `handleDeletionAndArchival` → `sliceLoadingTeardownHandler.Teardown` loads the
 slices before `objectSetPhasesReconciler.Teardown`. -/
-def controller (mode : Mode) (st : Store Name) (t : Template Name) (wait : Option Nat) : CtlOut Name :=
+def controller (mode : Mode) (st : Store Name) (t : Template Name) (rem : List RState) (wait : Option Nat) :
+    CtlOut Name :=
   match loadPhases st [] t with
   | (_, upd, _, false) => { res := .err, calls := [], updates := upd, archived := none, finalizerRemoved := false }
-  | (_, upd, phases, true) =>
-    match mode with
-    | .active =>
-      if hasDup (phases.flatten.map (·.id)) then
-        { res := .preflight, calls := [], updates := upd, archived := none, finalizerRemoved := false }
-      else
-        { res := .ok, calls := (indexed phases).map fun (i, objs) => { teardown := false, phase := i, objects := objs },
-          updates := upd, archived := none, finalizerRemoved := false }
-    | _ => finishTeardown mode upd wait phases
+  | (_, upd, phases, true) => finish mode upd (t.map (·.cls)) rem wait phases
 
 /-- The control flow BEFORE fix C14-a: deletion / archival went straight to `Teardown`, which therefore only saw
 the inline objects of every phase. -/
-def controllerPreFix (mode : Mode) (st : Store Name) (t : Template Name) (wait : Option Nat) : CtlOut Name :=
+def controllerPreFix (mode : Mode) (st : Store Name) (t : Template Name) (rem : List RState) (wait : Option Nat) :
+    CtlOut Name :=
   match mode with
-  | .active => controller mode st t wait
-  | _ => finishTeardown mode [] wait (t.map (·.objects))
+  | .active => controller mode st t rem wait
+  | _ => finishTeardown mode [] wait (phaseInfos (t.map (·.cls)) rem (t.map (·.objects)))
 
 end
 end Pko.Model.Chunk
